@@ -327,7 +327,8 @@ def micro_scenarios():
 def long_scenarios():
     """A few *long* runs (until 80..1100): fast paths and bookkeeping that only engage beyond a size threshold
     (dozens of pending steps or cache entries, a thousand steps of one simulator) are never reached by the small
-    generated scenarios.  Run under a handful of fixed schedules, not enumerated."""
+    generated scenarios; also large time values and many simulators.  Run under a handful of fixed schedules, not
+    enumerated."""
     out = {}
     # a producer running far ahead (lazy off) leaves the triggered simulator with dozens of pending steps; its
     # self-scheduled step coincides with a trigger from a loop closed with a time shift
@@ -356,6 +357,23 @@ def long_scenarios():
     for sm in sync["sims"]:
         sm["transport"] = "sync"        # immediate replies, like the repository's own test simulators
     out["long_many_steps_sync"] = sync
+    # large time values (strides and shifts of hundreds): nothing in the code may depend on times being small
+    out["long_big_times"] = {
+        "tree": ["A", "B", "C"],
+        "sims": [_sim("A", "hybrid", steps=[300], emit=[0]), _sim("B", "hybrid", steps=[450], emit=[1], future=[150, 0]),
+                 _sim("C", "event-based", emit=[1])],
+        "conns": [_c("A", "po", "B", "mi"), _c("B", "eo", "C", "ti"), _c("C", "eo", "A", "ti", shift=300)],
+        "until": 3000, "world": {"cache": True}, "run": {"lazy_stepping": True}, "initial_events": {}, "few_steps": True}
+    # many simulators (24, a third of them in a group): a chain with time-shifted shortcuts
+    n = 24
+    sims = [_sim(f"N{i:02d}", "time-based" if i % 3 else "hybrid", steps=[1 + i % 2]) for i in range(n)]
+    conns = [_c(f"N{i:02d}", "po", f"N{i + 1:02d}", "mi") for i in range(n - 1)]
+    conns += [_c(f"N{i:02d}", "po", f"N{(i + 5) % n:02d}", "ti" if (i + 5) % n % 3 == 0 else "mi", shift=1,
+                 init=((i + 5) % n % 3 != 0)) for i in range(0, n, 4)]
+    out["long_many_sims"] = {
+        "tree": [x["sid"] for x in sims[:8]] + [[x["sid"] for x in sims[8:16]]] + [x["sid"] for x in sims[16:]],
+        "sims": sims, "conns": conns, "until": 4, "world": {"cache": True}, "run": {"lazy_stepping": True},
+        "initial_events": {}, "few_steps": True}
     return out
 
 
@@ -365,7 +383,7 @@ def long_cases(max_until=None):
         if max_until is not None and scn["until"] > max_until:
             continue
         scheds = [{}, {"policy": "lifo"}]
-        if scn["until"] <= 200:
+        if scn["until"] <= 200 or scn.get("few_steps"):
             scheds.append({"policy": "starve", "arg": scn["sims"][1]["sid"]})
         for sched in scheds:
             yield name, {"scenario": scn, "schedule": sched}
